@@ -426,7 +426,14 @@ def api_fingerprint(obj, texts):
 
 
 def snapshot(obj):
-    snap = [type(obj).__name__, str(obj), obj.get_pattern()]
+    """Public observables only: the property is about an object's pattern and behaviour."""
+    return [type(obj).__name__, str(obj), obj.get_pattern()]
+
+
+def internal_snapshot(obj):
+    """Protected accessors: a drift here is reported as an observation (it becomes a violation only through its
+    effect on later expressions, which the rebuild oracle sees)."""
+    snap = []
     for name in ("_get_type", "_is_repeatable", "_get_verbose_pattern"):
         f = getattr(obj, name, None)
         if f is not None:
@@ -500,6 +507,8 @@ def _run(plan, inst, log, label):
             if s != snaps[pid][0]:
                 raise Violation("C20.operand_changed", "object #%d = %s changed after %s: %r -> %r"
                                 % (pid, show(recs[pid]), context, snaps[pid][0], s))
+            if internal_snapshot(o) != snaps[pid][2]:
+                stats["internal_drift"] = stats.get("internal_drift", 0) + 1
 
     def check_fingerprint(pid, context):
         fp = digest_of(api_fingerprint(pool[pid], texts))
@@ -541,7 +550,7 @@ def _run(plan, inst, log, label):
                         if alias in need:
                             stats["shortcut_self"] += 1
                     pool[op["id"]] = o
-                    snaps[op["id"]] = (snapshot(o), digest_of(api_fingerprint(o, texts)))
+                    snaps[op["id"]] = (snapshot(o), digest_of(api_fingerprint(o, texts)), internal_snapshot(o))
                     outcomes[op["id"]] = "ok"
                     log.add("build", op["id"], "ok", str(o), alias)
             cover.add("|".join(("build", rec[0], str(rec[1]) if rec[0] in ("new", "call", "op") else "-",
